@@ -11,9 +11,16 @@ FUNCTIONS = ["reuse.header._create_new_header", "reuse.header.place_header"]    
 MODULES = ("contracts.report", "contracts.cli", "contracts.annotate", "contracts.copyright", "contracts.header")
 
 
+def kf_literal_contributor(f):
+    """known finding C10-template-literal-contributor"""
+    return f.get("case") == "template with a literal contributor line"
+
+
 def run(ctx):
     e = engine(ctx, modules=MODULES)
-    verify_all(ctx, e, FUNCTIONS)
+    from pyvc.driver import generic_replay
+    for q in FUNCTIONS:
+        ctx.verify(e, q, replay=generic_replay(q) if q == "reuse.header.place_header" else None)
     assumed_contracts(ctx, e, "C10")
     ctx.bounded.append(annot.idempotence(ctx.tier))
     ctx.assume("comment_at_first_character / contains_reuse_info on the tool's own output: bounded runs over every style")
